@@ -7,6 +7,7 @@
 (* Packet is compared with it state by state).                              *)
 (*                                                                          *)
 (*   new_query(id) / new_reply(id)          Packet::new_query / new_reply   *)
+(*   parse(bytes)                           Packet::parse                   *)
 (*   set_id(v)                              Packet::set_id                  *)
 (*   set_flags(mask) / remove_flags(mask)   Packet::set_flags / remove_flags*)
 (*   set_opcode(v) / set_rcode(v)           *opcode_mut() / *rcode_mut()    *)
@@ -22,6 +23,8 @@ BlankPacket(id, fs) == [id |-> id, fs |-> fs, opcode |-> 0, rcode |-> 0, opt |->
 ApplyOp(p, o) ==
   CASE o.op = "new_query" -> BlankPacket(o.v, 0)
     [] o.op = "new_reply" -> BlankPacket(o.v, 32768)
+    \* a packet obtained from the parser (a proxy that edits and re-emits): what the reference decoder decodes
+    [] o.op = "parse" -> RefDecode(o.v).pkt
     [] o.op = "set_id" -> [p EXCEPT !.id = o.v]
     [] o.op = "set_flags" -> [p EXCEPT !.fs = MaskOf(HdrFlagSet(@) \cup HdrFlagSet(o.v))]
     [] o.op = "remove_flags" -> [p EXCEPT !.fs = MaskOf(HdrFlagSet(@) \ HdrFlagSet(o.v))]
